@@ -379,8 +379,70 @@ def answerAd (m : List (String × String)) : String :=
     if blocks.isEmpty then "_" else " | ".intercalate blocks
   | _, _ => "bad-op"
 
+/-! ### Process sessions (`ps`): the save/load helpers used more than once
+
+  ps ex=<names> bf=<inits> af=<inits> obj=<attrs> heap=<rats> ops=<op;...>
+       op : S~i~path (to_pickle(objs[i], path)) | L~path (objs.append(from_pickle(path))) |
+            A~i~a~v (objs[i].a = v) | B~i~a (objs[i].a.value += 1 / objs[i].a += 1)
+     -> <status>@<o0>/<o1>/... after every operation, joined by " ; "
+        status : ok | E:index | E:pickle | E:nofile
+        object : k:P:v | k:S:v#n | k:D:p | k:L sorted by key, `_` when it has no attribute;
+                 n = number of the shared-memory cell in order of first appearance (objects in order of creation)
+-/
+
+def parsePOp (t : String) : Option POp :=
+  match t.splitOn "~" with
+  | ["S", i, p] => i.toNat?.map (fun k => POp.save k p)
+  | ["L", p] => some (POp.load p)
+  | ["A", i, a, v] => match i.toNat?, parseRat? v with
+    | some k, some r => some (POp.assign k a r)
+    | _, _ => none
+  | ["B", i, a] => i.toNat?.map (fun k => POp.bump k a)
+  | _ => none
+
+def showObjCells (h : Heap) (acc : List String × List Nat) (o : Obj) : List String × List Nat :=
+  let ks := (sortByKey ((keys o).map (fun k => (k, k)))).map Prod.fst
+  let r := ks.foldl (fun (a : List String × List Nat) k =>
+    match GV.C20.get o k with
+    | some (.sync c) =>
+      let seen := if a.2.contains c then a.2 else a.2 ++ [c]
+      (a.1 ++ [k ++ ":S:" ++ showRat (h.getD c 0) ++ "#" ++ toString (seen.idxOf c)], seen)
+    | some v => (a.1 ++ [k ++ ":" ++ showVal 0 h v], a.2)
+    | none => a) ([], acc.2)
+  (acc.1 ++ [if r.1.isEmpty then "_" else ",".intercalate r.1], r.2)
+
+def showProc (P : Proc) : String :=
+  "/".intercalate (P.objs.foldl (showObjCells P.heap) ([], [])).1
+
+def psStatus (s : Spec) (P : Proc) : POp → String
+  | .save i _ => match P.objs[i]? with
+    | none => "E:index"
+    | some o => if picklable (getstate s o P.heap) then "ok" else "E:pickle"
+  | .load p => match GV.C20.get P.files p with
+    | none => "E:nofile"
+    | some _ => "ok"
+  | .assign i _ _ => if i < P.objs.length then "ok" else "E:index"
+  | .bump i _ => if i < P.objs.length then "ok" else "E:index"
+
+def answerPs (m : List (String × String)) : String :=
+  let ex := items (field m "ex")
+  let opsS := field m "ops"
+  let opToks := if opsS = "[]" || opsS = "_" then [] else opsS.splitOn ";"
+  match (items (field m "bf")).mapM parseInit, (items (field m "af")).mapM parseInit,
+        (items (field m "obj")).mapM parseAttr, parseRatList? (field m "heap"), opToks.mapM parsePOp with
+  | some bf, some af, some o, some h, some ops =>
+    let s : Spec := { excluded := ex, before := bf, after := af, post := [] }
+    let P0 : Proc := { files := [], heap := h, objs := [o] }
+    let r := ops.foldl (fun (acc : Proc × List String) op =>
+      let st := psStatus s acc.1 op
+      let P' := acc.1.step s op
+      (P', acc.2 ++ [st ++ "@" ++ showProc P'])) (P0, [])
+    if r.2.isEmpty then "_" else " ; ".intercalate r.2
+  | _, _, _, _, _ => "bad-op"
+
 def answer (line : String) : String :=
   match tokens line with
+  | "ps" :: rest => answerPs (kvs rest)
   | "rt" :: rest => answerRt (kvs rest)
   | "jg" :: rest => answerJg (kvs rest)
   | "h5" :: rest => answerH5 (kvs rest)
